@@ -42,6 +42,11 @@ func GenCase(prop, tier string, base uint64, idx int) *Case {
 	default:
 		return nil
 	}
+	switch prop {
+	case "C11", "C13", "C14", "C17", "C19":
+		// drawn from a separate stream so that the cases stay what they were
+		c.GoMaxProcs = pick(NewRand(seed^0x60a), []int{0, 0, 1, 2, 16})
+	}
 	c.Seed = seed
 	c.Idx = idx
 	return c
